@@ -3,6 +3,7 @@ package main
 import (
 	"fmt"
 	"go/token"
+	"go/types"
 
 	"golang.org/x/tools/go/ssa"
 )
@@ -94,6 +95,13 @@ func c06(r *Report) {
 	}
 
 	r.Guard("C06.R1", "the leaf is signed by the CA key under the CA certificate and carries the public half of the key the proxy presents", func() {
+		// a certificate that could not be made is an error, not a nil certificate
+		errorsReturnedRule(r, cert, false)
+
+		// the key pair is fixed when the Config is built: the certified key and the
+		// presented key are two reads of c.priv, which only agree if nothing replaces it later
+		fieldWritersRule(r, "mitm", "Config", "priv", map[string]bool{"M/mitm.NewConfig": true}, "the leaf key is replaced after construction: concurrent handshakes can pair a certificate over one key with the private half of another")
+
 		a := create.Call.Args
 		r.Decide("flow", "(*M/mitm.Config).cert: parent certificate is c.ca", cfgField(a[2], "ca"), "CreateCertificate parent derives from c.ca", "the leaf is not issued under the configured CA certificate", create.Pos())
 		r.Decide("flow", "(*M/mitm.Config).cert: signer is c.capriv", cfgField(a[4], "capriv"), "signed with the CA private key", "the leaf is not signed with the configured CA key", create.Pos())
@@ -345,6 +353,38 @@ func c06(r *Report) {
 			}
 			r.Decide("flow", "(*M/mitm.Config).cert: "+f.name+" is time.Now() "+sign+" c.validity", ok, "window bound derives from now and the configured validity with the right sign", f.name+" is not now "+sign+" validity: the certificate is not valid at the time of the handshake", create.Pos())
 		}
+		// "valid at the time of the handshake": the instant is read per handshake. No
+		// callback captures an instant taken when the tls.Config was built, and a
+		// verification that names its own time names the current one.
+		stale := 0
+		for _, f := range w.Funcs("mitm") {
+			for _, fv := range f.FreeVars {
+				t := fv.Type()
+				if p, ok := t.(*types.Pointer); ok {
+					t = p.Elem()
+				}
+				if t.String() == "time.Time" {
+					stale++
+					r.Fail("flow", fnName(f)+": captures the instant "+fv.Name(), "a callback uses an instant captured when its tls.Config was created instead of the time of the handshake: once the proxy has run longer than the validity window every cached certificate looks valid (or every new one is issued already expired)", nil, f.Pos())
+				}
+			}
+			for _, in := range instrs(f) {
+				st, ok := in.(*ssa.Store)
+				if !ok {
+					continue
+				}
+				fa, ok := st.Addr.(*ssa.FieldAddr)
+				if !ok || fieldObj(fa).Name() != "CurrentTime" || namedOf(fa.X.Type()) != "VerifyOptions" {
+					continue
+				}
+				r.Touch(f)
+				if !isCallValue(st.Val, "time.Now") {
+					stale++
+					r.Fail("flow", fnName(f)+": VerifyOptions.CurrentTime is not time.Now()", "the cached certificate is verified against an instant other than the present one", nil, st.Pos())
+				}
+			}
+		}
+		r.Decide("flow", "M/mitm: validity is judged and issued at the time of the handshake", stale == 0, "no callback captures a time.Time; no verification names a time other than time.Now()", "see the individual constructs")
 		okEKU := len(tmpl["ExtKeyUsage"]) == 1 && sliceLitContains(w, tmpl["ExtKeyUsage"][0].Val, func(v ssa.Value) bool { n, ok := constInt(v); return ok && n == 1 })
 		r.Decide("table", "(*M/mitm.Config).cert: ExtKeyUsage includes server authentication", okEKU, "x509.ExtKeyUsageServerAuth present", "the leaf is not usable for TLS server authentication", create.Pos())
 		okSer := len(tmpl["SerialNumber"]) == 1 && anyIn(w.backSlice(tmpl["SerialNumber"][0].Val, flowOpt{}), func(v ssa.Value) bool { return isCallValue(v, "crypto/rand.Int") })
